@@ -357,9 +357,13 @@ class Program:
         out = []
         for m in self.modules.values():
             seen = set()
-            for f in m.functions.values():
+            absorbed = set(m.normalised.get('__absorbed__', ()))
+            for q, f in m.functions.items():
                 if id(f) not in seen:
                     seen.add(id(f))
+                    # a new private helper read through at every use is analysed inside its callers, not by itself
+                    if q in absorbed or any(q.startswith(a + '.<locals>.') for a in absorbed):
+                        continue
                     out.append(f)
         return out
 
